@@ -2,6 +2,7 @@ import JaqalProofs.Props.C19Circuit
 import JaqalProofs.Props.ParsedC10
 import JaqalProofs.Lemmas.ParsedUnitTiming
 import JaqalProofs.Lemmas.PassesCountsOK
+import JaqalProofs.Lemmas.PassesNoSub
 /-!
 # C19 from texts — `normalize_blocks_with_unitary_timing` on the circuits the PARSER builds
 
@@ -55,13 +56,18 @@ blocks in `expand_subcircuits`, the builder in `fill_in_let` / `fill_in_map`: `L
 over `Builder.build` for ARBITRARY S-expressions, `Lemmas/BuiltCountsOK.lean: built_countsOK`).  Hence `C19_ok_iff_passes`,
 `C19_fails_only_passes`, `C19_loop_passes`: the iff / the reasons of a failure after the passes, unconditionally.
 
+When the subcircuit blocks are gone (`SubsGone π c`: the sequence contains `expand_subcircuits`, or the text had none) they stay
+gone (`Lemmas/PassesNoSub.lean`) and the sharp statements hold after the passes too: `C19_noSubInPar_passes`,
+`C19_ok_iff_passes_subs` (success ⇔ no loop in a parallel block), `C19_total_class_passes_subs` (only `errLoop`).
+
 ## OPEN
 
-`C19_noSubInPar_passes_full` (a `def`, not proved): that no subcircuit block stands inside a parallel block AFTER a sequence of passes
-(it is proved for the parsed circuit itself: `parsed_noSubInPar`).  Only `expand_macros` can break it, and the builder refuses the call
-of a macro containing a subcircuit block inside `< >` / `subcircuit { }` (`Builder.nestingCheck`, `macroHasSub`), so it should hold;
-carrying that through the expansion (and through the rebuilds) is a separate induction.  Until then the `AssertionError` is not
-excluded after the passes (`C19_error_classes_passes`, `C19_fails_only_passes` name it), while it IS excluded on the parsed circuit.
+`C19_noSubInPar_passes_full` (a `def`, not proved): that no subcircuit block stands inside a parallel block after EVERY sequence of
+passes — open for the sequences WITHOUT `expand_subcircuits` on texts WITH subcircuit blocks (proved for the parsed circuit itself,
+`parsed_noSubInPar`, and under `SubsGone`, `C19_noSubInPar_passes`).  Only `expand_macros` can break it, and the builder refuses the
+call of a macro containing a subcircuit block inside `< >` / `subcircuit { }` (`Builder.nestingCheck`, `macroHasSub`), so it should
+hold; carrying that through the expansion (and through the rebuilds) is a separate induction.  Until then the `AssertionError` is
+not excluded there (`C19_error_classes_passes`, `C19_fails_only_passes` name it).
 -/
 set_option linter.unusedVariables false
 namespace Jaqal.UnitTimingCircuit
@@ -471,6 +477,39 @@ def C19_noSubInPar_passes_full : Prop :=
     Pipeline.parseProgram cfg txt = .ok c → Passes.applySeq π c = .ok c1 →
     UnitTiming.anySubInPar false (skelBody L c1) = false
 
+/-! ## the sharp statements after the passes, when the subcircuit blocks are gone -/
+
+/-- the subcircuit blocks are gone after the sequence: it contains `expand_subcircuits`, or the parsed circuit had none (body and
+macro bodies; `NoSubC`, decidable) -/
+def SubsGone (π : List Passes.Pass) (c : Circuit) : Prop := Passes.Pass.subs ∈ π ∨ NoSubC c
+
+theorem C19_noSubC_passes (π : List Passes.Pass) {c1 : Circuit} (h : Pipeline.parseProgram cfg txt = .ok c)
+    (hπ : Passes.applySeq π c = .ok c1) (hg : SubsGone π c) : NoSubC c1 := by
+  rcases hg with hs | hn
+  · exact applySeq_subs_noSub π (Passes.parsed_legal cfg txt c h) hs hπ
+  · exact applySeq_noSub π (Passes.parsed_legal cfg txt c h) hn hπ
+
+/-- `C19_noSubInPar_passes_full` for the sequences that contain `expand_subcircuits` / the texts without subcircuit blocks -/
+theorem C19_noSubInPar_passes (L : Labelling) (π : List Passes.Pass) {c1 : Circuit} (h : Pipeline.parseProgram cfg txt = .ok c)
+    (hπ : Passes.applySeq π c = .ok c1) (hg : SubsGone π c) : UnitTiming.anySubInPar false (skelBody L c1) = false :=
+  noSubC_noSubInPar L (C19_noSubC_passes π h hπ hg)
+
+/-- then: success ⇔ no loop in a parallel block -/
+theorem C19_ok_iff_passes_subs (L : Labelling) (π : List Passes.Pass) {c1 : Circuit} (hi : ImportsOK cfg)
+    (h : Pipeline.parseProgram cfg txt = .ok c) (hπ : Passes.applySeq π c = .ok c1) (hg : SubsGone π c) :
+    (∃ c', normalizeCircuit c1 = .ok c') ↔ UnitTiming.anyLoopInPar false (skelBody L c1) = false := by
+  rw [C19_ok_iff_passes L π hi h hπ]
+  exact ⟨fun x => x.1, fun x => ⟨x, C19_noSubInPar_passes L π h hπ hg⟩⟩
+
+/-- … and only `errLoop` (`JaqalError`) can come out -/
+theorem C19_total_class_passes_subs (L : Labelling) (π : List Passes.Pass) {c1 : Circuit} {e : Err} (hi : ImportsOK cfg)
+    (h : Pipeline.parseProgram cfg txt = .ok c) (hπ : Passes.applySeq π c = .ok c1) (hg : SubsGone π c)
+    (hn : normalizeCircuit c1 = .error e) :
+    e = errLoop ∧ e.cls = "JaqalError" ∧ UnitTiming.anyLoopInPar false (skelBody L c1) = true := by
+  rcases C19_fails_only_passes L π hi h hπ hn with ⟨rfl, hl⟩ | ⟨_, hs⟩
+  · exact ⟨rfl, rfl, hl⟩
+  · rw [C19_noSubInPar_passes L π h hπ hg] at hs; cases hs
+
 /-! ## non-vacuity: the evaluated examples of `Props/C19Circuit.lean` -/
 
 section Examples
@@ -543,6 +582,24 @@ example : ∃ c c1 c', Pipeline.parseProgram {} exTxt = .ok c ∧ Passes.applySe
   simp only [decide_eq_true_eq] at h2
   exact ⟨c, c1, c', hc, hc1, hc', C19_wf_passes _ importsOK_default hc hc1, h2, C19_schedule_passes _ exL hc hc1 hc' 0,
     C19_idempotent_passes _ hc hc1 hc', (C19_ok_iff_passes exL _ importsOK_default hc hc1).1 ⟨c', hc'⟩⟩
+
+/-- `exTxt` through `expand_subcircuits ; expand_macros`, then the unit-timing pass: 18 gate instances (the subcircuit block now
+bracketed by `prepare_all` / `measure_all`) -/
+theorem ex_passes_subs : chk (Pipeline.parseProgram {} exTxt) (fun c =>
+    chk (Passes.applySeq [.subs, .macros false] c) (fun c1 =>
+      chk (normalizeCircuit c1) (fun c' => decide ((UnitTiming.timesSeq 0 (skelBody exL c')).length = 18)))) = true := by
+  decide +kernel
+
+/-- `SubsGone` holds of it; `C19_ok_iff_passes_subs` applies -/
+example : ∃ c c1 c', Pipeline.parseProgram {} exTxt = .ok c ∧ Passes.applySeq [.subs, .macros false] c = .ok c1 ∧
+    normalizeCircuit c1 = .ok c' ∧ SubsGone [.subs, .macros false] c ∧
+    UnitTiming.anySubInPar false (skelBody exL c1) = false ∧ UnitTiming.anyLoopInPar false (skelBody exL c1) = false := by
+  obtain ⟨c, hc, h⟩ := chk_ok ex_passes_subs
+  obtain ⟨c1, hc1, h1⟩ := chk_ok h
+  obtain ⟨c', hc', _⟩ := chk_ok h1
+  have hg : SubsGone [.subs, .macros false] c := .inl (by simp)
+  exact ⟨c, c1, c', hc, hc1, hc', hg, C19_noSubInPar_passes exL _ hc hc1 hg,
+    (C19_ok_iff_passes_subs exL _ importsOK_default hc hc1 hg).1 ⟨c', hc'⟩⟩
 
 /-- a pulse module whose `ALL_GATES` holds a macro (only possible with `autoload_pulses`) -/
 def cfgMacroImport : Config :=
@@ -650,6 +707,12 @@ open Jaqal.UnitTimingCircuit in
 #print axioms C19_ok_iff_passes
 open Jaqal.UnitTimingCircuit in
 #print axioms C19_fails_only_passes
+open Jaqal.UnitTimingCircuit in
+#print axioms C19_noSubInPar_passes
+open Jaqal.UnitTimingCircuit in
+#print axioms C19_ok_iff_passes_subs
+open Jaqal.UnitTimingCircuit in
+#print axioms C19_total_class_passes_subs
 open Jaqal.UnitTimingCircuit in
 #print axioms ex_passes
 open Jaqal.UnitTimingCircuit in
